@@ -11,7 +11,7 @@ ExplicitSymplecticIntegrator.__call__ : dTime == new_dt == timestep.
 import z3
 
 from pyvc.executor import Executor, State, Ctx, Raised, Unsupported
-from pyvc.values import LinComb, Poly, UFunc, Opaque, fresh_name, to_bool
+from pyvc.values import LinComb, Poly, UFunc, Opaque, fresh_name, to_bool, to_real
 
 FT = "desolver/integrators/integrator_types.py"
 FTPL = "desolver/integrators/integrator_template.py"
@@ -81,6 +81,39 @@ def check_update_timestep(reg, src, prop):
             reg.ground("%s/update_timestep[%s]/frame-controller-memory-only#%d" % (prop, label, k), "frame", "update_timestep",
                        set(changed) <= {"system_scaling", "epsilon_last", "epsilon_last_last"}, backend="symbolic-exec", detail="keys written: %r" % (sorted(changed),))
         # absolute time is never read by the controller (shift invariance of the step-size decisions)
+    return fi
+
+
+def check_controller_error_measure(reg, src, prop):
+    """The error measure the controller steers by (scalar view of one component, fresh controller memory): the reciprocal of
+    |diff| / (atol + rtol * max(|y|, |dState / h|)) -- absolute AND relative tolerance, scaled by the state."""
+    fi = src.func(FTPL, "IntegratorTemplate.update_timestep")
+    for scaling in (False, True):
+        ex = Executor(src, reg, prop=prop)
+        ex.global_axioms = ex.global_axioms + transcendental_axioms(ex)
+        st = State()
+        y0, diff, h, sf, atol, rtol, dy, order = (z3.Real(n) for n in ("y0", "diff", "h", "sf", "atol", "rtol", "dy", "order"))
+        items = dict(initial_state=y0, diff=diff, timestep=h, safety_factor=sf, atol=atol, rtol=rtol, dState=dy, order=order, initial_time=z3.Real("t_init"))
+        sc_old = z3.Real("scaling_old")
+        if scaling:
+            items["system_scaling"] = sc_old
+            st.assume(sc_old >= 0)
+        sd = st.new_obj("dict", "dict", items=dict(items))
+        selfobj = st.new_obj("IntegratorTemplate", fields={"solver_dict": sd, "_IntegratorTemplate__custom_adaptation_fn": None})
+        for a in (h != 0, sf > 0, order > 0, atol > 0, rtol > 0, diff != 0):
+            st.assume(a)
+        ctx = Ctx(fi, None, fi.cls, tag="update_timestep[scalar-view%s]" % ("+scaling" if scaling else ""))
+        zabs = lambda x: z3.If(x >= 0, x, -x)
+        fresh_scale = z3.If(zabs(y0) >= zabs(dy / h), zabs(y0), zabs(dy / h))
+        scale = (z3.Q(8, 10) * sc_old + z3.Q(2, 10) * fresh_scale) if scaling else fresh_scale
+        for k, (s, v) in enumerate(ex.call_function(fi, [selfobj, True], {}, st, ctx)):
+            if isinstance(v, Raised):
+                reg.ground("%s/%s/no-exception#%d" % (prop, ctx.tag, k), "post-exc", "update_timestep", False, detail=repr(v.exc))
+                continue
+            after = s.obj(sd).items
+            eps_cur = after.get("epsilon_last")
+            ex.prove(s, ctx, to_real(after["system_scaling"]) == scale, "post", "state-scale-is-max-of-state-and-slope#%d" % k)
+            ex.prove(s, ctx, to_real(eps_cur) * zabs(diff) == atol + rtol * scale, "post", "error-measure-uses-atol-plus-rtol-times-scale#%d" % k)
     return fi
 
 
